@@ -40,7 +40,8 @@ func (e *Engine) VerifyFunc(fn *ssa.Function, ct *FuncContract) (obls []*Obligat
 		args = append(args, v)
 		c.knownAll(st, v)
 		if i == 0 && fn.Signature.Recv() != nil {
-			if t, ok := v.(*Term); ok && t.Sort == SRef {
+			if t, ok := v.(*Term); ok && t.Sort == SRef && ct.Opts["nil-receiver"] == "" {
+				// (a method that handles a nil receiver itself says "opt nil-receiver = ok")
 				c.fact(Not(Eq(t, Null)))
 				e.assume("method receivers are non-nil")
 			}
